@@ -46,11 +46,11 @@ PROPS = {
     },
     "C16": {
         "trusted_base": [
-            "modelled: the 0x00-joined key encoding and its split parsers (kvgraph/keys.go; kvindex/keys.go uses the same scheme) and the validation rules of gripql/util.go (Model/Keys.v); the protobuf Struct round trip of property values is not modelled (checked by the harness only)",
+            "modelled: the 0x00-joined key encoding of kvgraph/keys.go and of kvindex/keys.go (string terms) and the validation rules of gripql/util.go (Model/Keys.v, hand-written); the key constructors and prefixes are compared byte for byte with the Go functions on 250 component tuples per run; the split parsers (*KeyParse) are modelled by split0 and exercised through read-back only; numeric index terms (8 raw bytes, which may contain 0x00) are C09's subject; the protobuf Struct round trip of property values is not modelled (checked by the harness only)",
             "which strings the code accepts is compared with the validation model on every run (accept/reject correspondence)",
         ],
         "assumptions": ["identifiers are valid UTF-8 (protobuf string fields: anything else cannot arrive over the wire)",
-                        "the label literally named 'label' is refused by the index layer (modelled as a refusal; on non-transactional drivers the vertex key is already written: thorough tier runs Pebble)"],
+                        "the label literally named 'label' is refused by the index layer (modelled as a refusal); since fix 3371a42 the refused write leaves no trace on any store (the reserved words are written on Pebble in the quick tier too)"],
     },
     "C09": {
         "trusted_base": [
@@ -72,6 +72,7 @@ PROPS = {
             "modelled, not verified: engine/core/compile.go (typing switch, Validate), every Process of engine/core/processors.go for the documented steps as list functions, gdbi/traveler.go (AddCurrent/AddMark), jsonpath (simple paths, fields on top-level keys, render), pipes.go Convert; goroutines/channels are abstracted to lists (their order/multiplicity behaviour is C13/C07)",
             "the graph of the model is the abstract graph; that kvgraph's reads denote it is C03_observe",
             "in/out from an edge ignore the label list (as the code does); the documentation does not say otherwise",
+            "the null-producing moves are read as a left outer join (the traveler is kept, without a current element, exactly when the plain move yields nothing, an edge to an absent vertex counting as nothing): what kvgraph's GetInChannel, the Mongo pipeline's preserveNullAndEmptyArrays and, since fix b223fe4, kvgraph's GetOutChannel do; no document of the repository defines them",
         ],
         "assumptions": ["fields()/unwind() are exercised on top-level property names only (nested include/exclude paths of jsonpath are not modelled)",
                         "programs whose window/distinct step is followed by anything but count are compared by size only (their rows depend on scan order)"],
@@ -96,7 +97,7 @@ PROPS = {
     "C06": {
         "trusted_base": [
             "proved part: the C01 model (typing + step functions); see C01's trusted base",
-            "NOT modelled, exercised only: null-producing steps, set/increment, aggregations, mark/jump, server edit handlers, BulkAdd stream switching, the optimiser's value extraction; the hostile-request generator and the worker sub-process classification (rows / error / crash / hang, crash and hang re-confirmed by running the request alone) are the whole assurance there",
+            "NOT modelled, exercised only: set/increment, aggregations, mark/jump, server edit handlers, BulkAdd stream switching, the optimiser's value extraction; the hostile-request generator and the worker sub-process classification (rows / error / crash / hang, crash and hang re-confirmed by running the request alone) are the whole assurance there",
             "requests reach the handlers through the verif-tagged server constructor and fake gRPC streams: the gRPC/HTTP transport layers are not exercised",
         ],
         "assumptions": ["a loop program (mark/jump) whose counter bounds the iteration depth; unbounded loops over cyclic data do not terminate by construction and are not requests this check sends"],
